@@ -50,7 +50,9 @@ int vnadata_set_z0_vector(vnadata_t *vdp,
 	    return -1;
 	}
     }
-    (void)memcpy((void *)vdip->vdi_z0_vector, (void *)z0_vector,
-	    ports * sizeof(double complex));
+    if (ports > 0) {
+	(void)memcpy((void *)vdip->vdi_z0_vector, (void *)z0_vector,
+		ports * sizeof(double complex));
+    }
     return 0;
 }
